@@ -436,6 +436,16 @@ Proof.
 Qed.
 
 
+(* modek_tprod: the mode-k product is apply_tprod with identity placeholders on the first k axes *)
+Lemma modek_spec B k : forall f idx, k < length idx ->
+  tprod (Model.modek_ops R B k) f idx = Model.modek_entry R rO radd rmul B k f idx.
+Proof.
+  unfold Model.modek_ops, Model.modek_entry.
+  induction k as [|k IH]; intros f [|i idx] H; simpl in *; try lia.
+  - reflexivity.
+  - rewrite IH by lia. reflexivity.
+Qed.
+
 (* ------------------------------------------------------------------ *)
 (* TuckerTensor                                                        *)
 (* ------------------------------------------------------------------ *)
